@@ -23,21 +23,21 @@ use jj_lib::rewrite::{find_recursive_merge_commits, merge_commit_trees, rebase_c
 use pollster::FutureExt as _;
 use std::collections::BTreeSet;
 
-struct Hist {
+pub struct Hist {
     /// parents (indices) and tree terms of every commit; index 0 is the root
-    commits: Vec<(Vec<usize>, Vec<MTree>)>,
+    pub commits: Vec<(Vec<usize>, Vec<MTree>)>,
 }
 impl Hist {
-    fn show(&self) -> String {
+    pub fn show(&self) -> String {
         self.commits.iter().map(|(ps, ts)| {
             let p = if ps.is_empty() { "-".to_string() } else { ps.iter().map(|x| x.to_string()).collect::<Vec<_>>().join(".") };
             format!("{p}={}", show_trees(ts))
         }).collect::<Vec<_>>().join(",")
     }
 }
-fn ids(v: &[usize]) -> String { if v.is_empty() { "-".into() } else { v.iter().map(|x| x.to_string()).collect::<Vec<_>>().join(".") } }
+pub fn ids(v: &[usize]) -> String { if v.is_empty() { "-".into() } else { v.iter().map(|x| x.to_string()).collect::<Vec<_>>().join(".") } }
 
-fn is_debug_assert(e: &str) -> bool { e.contains("left == right") && e.contains("TreeId(") }
+pub fn is_debug_assert(e: &str) -> bool { e.contains("left == right") && e.contains("TreeId(") }
 
 fn pv(env: &mut Env, t: &MergedTree, p: &[u64]) -> Result<Exp, String> {
     let rp = repo_path_of(p);
@@ -61,7 +61,7 @@ fn gen_commit_tree(env: &mut Env, r: &mut Rng, pal: &Palette, fam: &[MTree]) -> 
     vec![if r.chance(1, 3) { r.pick(fam).clone() } else { let b = r.pick(fam).clone(); pal.mutate(r, &b) }]
 }
 
-fn touched(a: &MTree, b: &MTree) -> BTreeSet<Vec<u64>> {
+pub fn touched(a: &MTree, b: &MTree) -> BTreeSet<Vec<u64>> {
     let mut paths = BTreeSet::new();
     all_paths(a, &mut vec![], &mut paths);
     all_paths(b, &mut vec![], &mut paths);
